@@ -670,20 +670,80 @@ func (s SeqSpec) String() string {
 	return s.Lit
 }
 
-// DrawSeq draws a sequence over alpha with a size-biased length in [lo, hi]: most are short
-// (letters drawn one by one, so they shrink well), a tail is long filler.
-func DrawSeq(t *rapid.T, name, alpha string, lo, hi int) SeqSpec {
+// EdgeSizes lists the sizes in [lo, hi] at which buffer, block, line-width and integer-width slips
+// show: the ends of the range, powers of two and of ten, multiples of 1024, 4096 and 65536, multiples of
+// the line widths 60, 70 and 80 (the first few, and the last ones below hi and below each power of two),
+// each with both neighbours. Sorted, without duplicates.
+func EdgeSizes(lo, hi int) []int {
+	set := map[int]bool{}
+	add := func(v int) {
+		for d := -1; d <= 1; d++ {
+			if v+d >= lo && v+d <= hi {
+				set[v+d] = true
+			}
+		}
+	}
+	add(lo)
+	add(hi)
+	for k := 0; k < 31; k++ {
+		add(1 << k)
+		add(3 << k)
+	}
+	for v := 10; v <= hi && v > 0; v *= 10 {
+		add(v)
+	}
+	for _, step := range []int{1024, 4096, 65536} {
+		for m := 1; m <= 40 && m*step <= hi; m++ {
+			add(m * step)
+		}
+	}
+	for _, w := range []int{3, 60, 70, 80} {
+		for m := 1; m <= 6; m++ {
+			add(m * w)
+		}
+		add(hi / w * w)
+		for k := 8; k < 31 && 1<<k <= hi; k++ {
+			add((1 << k) / w * w)
+			add(((1<<k)/w + 1) * w)
+		}
+	}
+	out := make([]int, 0, len(set))
+	for v := range set {
+		out = append(out, v)
+	}
+	sort.Ints(out)
+	return out
+}
+
+// DrawSize draws a size in [lo, hi]: most are small (so cases stay cheap and shrink well), a share is
+// mid-sized, one in twenty is uniform over the whole range, and three in twenty come from EdgeSizes
+// (half of those from the edges in the upper part of the range).
+func DrawSize(t *rapid.T, name string, lo, hi int) int {
 	small := min(hi, max(lo, 40))
 	mid := min(hi, max(lo, 600))
-	var n int
 	switch cls := rapid.IntRange(0, 19).Draw(t, name+"_size"); {
 	case cls == 0 && hi > mid:
-		n = rapid.IntRange(mid, hi).Draw(t, name+"_len_big")
-	case cls <= 5 && mid > small:
-		n = rapid.IntRange(small, mid).Draw(t, name+"_len_mid")
+		return rapid.IntRange(mid, hi).Draw(t, name+"_len_big")
+	case cls <= 3 && hi > small:
+		edges := EdgeSizes(lo, hi)
+		if cls == 1 {
+			from := sort.SearchInts(edges, lo+(hi-lo)/16)
+			if from < len(edges) {
+				edges = edges[from:]
+			}
+		}
+		return edges[rapid.IntRange(0, len(edges)-1).Draw(t, name+"_len_edge")]
+	case cls <= 7 && mid > small:
+		return rapid.IntRange(small, mid).Draw(t, name+"_len_mid")
 	default:
-		n = rapid.IntRange(lo, small).Draw(t, name+"_len")
+		return rapid.IntRange(lo, small).Draw(t, name+"_len")
 	}
+}
+
+// DrawSeq draws a sequence over alpha with a length from DrawSize: short ones letter by letter (so
+// they shrink well), long ones as filler expanded from one 64-bit value.
+func DrawSeq(t *rapid.T, name, alpha string, lo, hi int) SeqSpec {
+	n := DrawSize(t, name, lo, hi)
 	if n > 48 {
 		return SeqSpec{Fill: rapid.Uint64().Draw(t, name+"_fill"), N: n, Alpha: alpha}
 	}
